@@ -296,9 +296,9 @@ def member_batches(rng, thorough):
         fam = r2.choice("vvvd")
         r, c = r2.choice(MEM_SHAPES_V if fam == "v" else MEM_SHAPES_D)
         k = r * c
-        n = r2.range(1, 5)
+        n = r2.range(1, 4)      # at most 4 statements: entries in [-9,9] squared 4 times stay below 9^16 < 2^63 (no overflow in long)
         ops.append(f"mem {fam} {r} {c} {vs(rvec(r2, c))} {vs(rvec(r2, c))} {vs(rvec(r2, k))} {vs(rvec(r2, k))} " + " ".join(random_stmt(r2, fam, r, c) for _ in range(n)))
-    yield Batch("member-random", ops, note="1-5 random statements on random worlds with entries in [-9,9] (all shapes, incl. out-of-range get_unsafe and non-existent views)")
+    yield Batch("member-random", ops, note="1-4 random statements on random worlds with entries in [-9,9] (all shapes, incl. out-of-range get_unsafe and non-existent views)")
 
 
 def nontrivial(op, result):
